@@ -39,19 +39,19 @@ def _cond(pid, cfgs, text, expl):
     PROPS[pid] = {"quick": [_inst(t) for t in cfgs],
                   "level_text": text, "level_note": _LN, "explanation": expl}
 
-_cond("C07", [("MC_COND", "MC_C07_quick.cfg")],
+_cond("C07", [("MC_COND", "MC_C07_quick.cfg"), ("MC_NN", "MC_NN_quick.cfg", {"require_acts": ["NNOp", "SetControl"]})],
       "TLC enumerates conditional class x constructor mode x (Dy,Dx) in both log-determinant regimes x batch pattern and proves joint(x,y) = p(y|x)p(x) for all points via the lattice, plus coherence of the information-form precision and both log-determinant branches; replayed into the code, with the documented refusal for batches on both sides.",
       "4 conditional classes x 3 modes x b given/omitted x Dims {1,2}^2 x (R_c,R_x) in {(1,1),(1,2),(2,1),(3,1),(2,2)}")
-_cond("C08", [("MC_COND", "MC_C08_quick.cfg")],
+_cond("C08", [("MC_COND", "MC_C08_quick.cfg"), ("MC_NN", "MC_NN_quick.cfg", {"require_acts": ["NNOp", "SetControl"]})],
       "TLC proves marginal transformation = y-marginal of the joint and Bayes' identity p(x|y)p(y)=p(y|x)p(x) on the lattice for every configuration; replayed into the code.",
       "as C07")
-_cond("C09", [("MC_COND", "MC_C09_quick.cfg")],
+_cond("C09", [("MC_COND", "MC_C09_quick.cfg"), ("MC_NN", "MC_NN_quick.cfg", {"require_acts": ["NNOp", "SetControl"]})],
       "TLC proves Bayes' identity for the conditional transformation and both round trips component-wise; replayed into the code including condition_on_x of the posterior conditional.",
       "as C07")
-_cond("C10", [("MC_COND", "MC_C10_quick.cfg")],
+_cond("C10", [("MC_COND", "MC_C10_quick.cfg"), ("MC_NN", "MC_NN_quick.cfg", {"require_acts": ["NNOp", "SetControl"]})],
       "TLC proves set_y(y)(x) = N(y; Mx+b, Sigma) incl. normaliser on the lattice for every class, Dx != Dy included, R=1 with N observations and R=N; replayed into the code and followed through evaluate, product, multiply and log_integral.",
       "Dims incl. (3,1),(1,3); N in 1..3")
-_cond("C13", [("MC_PDF", "MC_C13a_quick.cfg"), ("MC_PDF", "MC_C13c_quick.cfg"), ("MC_COND", "MC_C13b_quick.cfg")],
+_cond("C13", [("MC_PDF", "MC_C13a_quick.cfg"), ("MC_PDF", "MC_C13c_quick.cfg"), ("MC_COND", "MC_C13b_quick.cfg"), ("MC_NN", "MC_NN_quick.cfg", {"require_acts": ["NNOp", "SetControl"]})],
       "TLC proves the closed forms equal their definitions through exact moments (entropy = -E[ln p], KL = E_p[ln p - ln q], H(Y|X) = H(X,Y)-H(X) = -E[ln p(y|x)], MI = H(X)+H(Y)-H(X,Y), swap symmetry, MI = 0 for M = 0, KL = 0 for equal densities); replayed into the code; sign clauses checked on the code's values.",
       "D<=3, R<=3 incl. 1-vs-n KL; all conditional classes; M = 0 included")
 
@@ -61,7 +61,7 @@ _cond("C03", [("MC_C03", "MC_C03_quick.cfg")],
 
 _cond("C14", [("MC_C03", "MC_C14_quick.cfg"), ("MC_COND", "MC_C14a_quick.cfg"), ("MC_COND", "MC_C14b_quick.cfg"),
               ("MC_C16", "MC_C14c_quick.cfg", {"require_acts": ["FeatIntLogCond"]}),
-              ("MC_C16", "MC_C14d_quick.cfg", {"require_acts": ["FeatIntLogCondY"]})],
+              ("MC_C16", "MC_C14d_quick.cfg", {"require_acts": ["FeatIntLogCondY"]}), ("MC_NN", "MC_NN_quick.cfg"), ("MC_NN", "MC_NNq_quick.cfg", {"require_acts": ["NNOp"]})],
       "Expected log-factor and expected log-conditional integrals are defined in the specification through exact Isserlis moments (E[x' Lam x], E[x]) for arbitrary Gaussian q, enumerated over every factor kind / conditional class / batch pattern, and replayed into the code (callable and y-given variants).",
       "all factor kinds with R_f in {1, R_u}; conditional classes Cond, CondDiag, CondId, CondIdDiag; RBF and squared-exponential feature models (kernel expectations as exp-atoms from the semantic layer, replacing the property's quadrature oracle by the exact value); q an arbitrary Gaussian over (y,x)")
 
@@ -86,7 +86,7 @@ _cond("C12", [("MC_SESSION", "MC_C12M_quick.cfg", {"sample_mod": 16, "require_ac
               ("MC_SESSION", "MC_C12C_quick.cfg", {"sample_mod": 2, "require_acts": ["Transform", "CondOnX", "SetY", "Slice", "Update"]})],
       "In the specification every operation is defined component-wise with the documented index maps (i*R2+j, r*N+n, batch index of the non-singleton operand) and TLC checks them (Inv_Slice, Inv_Pointwise, Inv_Transform, Inv_CondOnX, Inv_SetY, Inv_Update) in every state of session models with R=3 operands and index arrays with repetitions, permutations and negative entries; the explored histories contain both op;slice and slice;op and each is replayed into the code and compared with the exact component values, so cross-component leakage shows as a per-step mismatch.",
       "R in {1,3}, slice patterns incl. negatives/repeats/permutations, session depth per cfg; every second family-M behaviour replayed (hash-sampled, all checked by TLC)")
-_cond("C15", [("MC_C01", "MC_C15a_quick.cfg"), ("MC_COND", "MC_C15b_quick.cfg"), ("MC_C03", "MC_C15c_quick.cfg")],
+_cond("C15", [("MC_C01", "MC_C15a_quick.cfg"), ("MC_COND", "MC_C15b_quick.cfg"), ("MC_C03", "MC_C15c_quick.cfg"), ("MC_NN", "MC_NN_quick.cfg", {"require_acts": ["NNOp", "SetControl"]})],
       "For every specialised class (diagonal measures/densities/conditionals, identity-mean conditionals, rank-one/linear/constant factors) TLC proves that the class-specific code path modelled in the specification (diagonal inversion, Sherman-Morrison + determinant lemma, covariance reuse, M = I) yields the same function as the general object with the same parameters (Inv_Generalize, Inv_CacheCoherent, Inv_Transform...); the code is bound by replaying every behaviour and comparing with the general-semantics expected values.",
       "all specialised classes x the operations they support (products, integrals, transformations, set_y, information quantities)")
 
@@ -124,6 +124,23 @@ PROPS["C17"]["level_note"] = ("NOT DECIDED by this technique: validity and tight
     "closed form in the atom algebra, and the bound goes through a transcendental fixed point; deciding it needs numerical quadrature, "
     "which is a different technique (DESIGN section 7). The step-link equality is decided for square A only (for Da > Dy the shipped "
     "decomposition is the known finding KF-2). " + _LN)
+
+import os as _os
+_SPEC = _os.path.join(_os.path.dirname(_os.path.dirname(_os.path.abspath(__file__))), "spec")
+_THOROUGH_SAMPLING = {"MC_C04M_thorough.cfg": 40, "MC_C04C_thorough.cfg": 24, "MC_C12M_thorough.cfg": 60, "MC_C12C_thorough.cfg": 12}
+for _pid, _sp in PROPS.items():
+    _th = []
+    for _i in _sp["quick"]:
+        _t = dict(_i)
+        _cand = _i["cfg"].replace("_quick.cfg", "_thorough.cfg")
+        if _os.path.exists(_os.path.join(_SPEC, _cand)):
+            _t["cfg"] = _cand
+        _t["nprimes"] = 10
+        _t["timeout"] = 10800
+        if _t["cfg"] in _THOROUGH_SAMPLING:
+            _t["sample_mod"] = _THOROUGH_SAMPLING[_t["cfg"]]
+        _th.append(_t)
+    _sp["thorough"] = _th
 
 NOT_APPLICABLE = {}
 HOOK_COMMITS = []
